@@ -350,10 +350,48 @@ func c20r1(c *Check) {
 		}
 		checkRouteOptsOrder(c, fn, tok)
 	}
+	// addBlack <method> <pattern> and the TOML blacklist: method name → matcher option
+	checkStringSwitchMatcher(c, c.P.Func("imperatives", "", "readAddBlack"), "imperatives.readAddBlack")
+	// modRoute / modDest: option token → opts[name] → matcher option
+	for _, fnn := range []string{"readModDest", "readModRoute"} {
+		fn := c.P.Func("imperatives", "", fnn)
+		sl := newSlicer(c.P, fn)
+		n := 0
+		allInstrs(fn, func(in ssa.Instruction) {
+			mu, ok := in.(*ssa.MapUpdate)
+			if !ok {
+				return
+			}
+			key, ok := constString(mu.Key)
+			if !ok {
+				return
+			}
+			n++
+			g := sl.guardOf(mu.Block())
+			want, okT := tok[key]
+			c.Judge(okT && len(g) == 1 && g[0] == want, "imperatives."+fnn+" option "+key+"= → opts[\""+key+"\"]", c.At(mu), "stored under the name of the option that was given", fmt.Sprintf("the value of option tokens %v is stored as %q", g, key))
+		})
+		if n == 0 {
+			anchorFail("%s: no opts[...] assignments", fnn)
+		}
+	}
+	checkStringSwitchMatcher(c, c.P.Func("route", "*baseRoute", "update"), "route.baseRoute.update (modRoute)")
+	checkStringSwitchMatcher(c, c.P.Func("destination", "*Destination", "Update"), "destination.Destination.Update (modDest)")
 	// carbon routes use readRouteOpts too
 	checkRouteOptsOrder(c, c.P.Func("imperatives", "", "readAddRoute"), tok)
 	checkRouteOptsOrder(c, c.P.Func("imperatives", "", "readAddRouteConsistentHashing"), tok)
 	checkReadRouteOpts(c, tok)
+}
+
+// checkStringSwitchMatcher: in fn, the value assigned under `case "<opt>"` of a string switch reaches
+// matcher.New's parameter for <opt> (and nothing else does, apart from the current value when updating).
+func checkStringSwitchMatcher(c *Check, fn *ssa.Function, label string) {
+	w := wiringOfCall(c, fn, modPath+"/matcher.New")
+	for i, opt := range matcherOrder {
+		names, _ := tokenSources(w.srcs[w.params[i]])
+		okS := len(names) == 1 && names[0] == "str:"+opt
+		c.Judge(okS, label+" \""+opt+"\" → matcher.New("+opt+")", c.At(w.call), "the value given for "+opt+" becomes the "+opt+" option of the new filter", fmt.Sprintf("filter option %s is fed from the cases %v: options are swapped or ignored", opt, names))
+	}
 }
 
 func isMatcherOpt(s string) bool {
@@ -440,6 +478,16 @@ func c20r2(c *Check) {
 		c.Judge(len(names) == 1 && names[0] == fld && mults[fld] == 1, "cfg.InitAggregation "+fld+" → aggregator.New("+par+")", c.At(w.call), "TOML setting reaches its parameter", fmt.Sprintf("parameter %s is fed by settings %v (factors %v) instead of %s", par, names, mults, fld))
 	}
 	checkSubWins(c, ia, "cfg.InitAggregation")
+	// blacklist = ['<method> <pattern>', ...]
+	checkStringSwitchMatcher(c, c.P.Func("cfg", "", "InitBlacklist"), "cfg.InitBlacklist")
+	if rows, err := readMarkdownTable(docsFile(c), "Blacklist", "type"); err == nil {
+		sort.Strings(rows)
+		want := append([]string(nil), matcherOrder...)
+		sort.Strings(want)
+		c.Judge(strings.Join(rows, ",") == strings.Join(want, ","), "docs/config.md blacklist methods = the six filter options", "docs/config.md", strings.Join(rows, ","), fmt.Sprintf("documented blacklist methods %v differ from the filter options %v", rows, want))
+	} else {
+		c.Undecided("docs/config.md blacklist table", "docs/config.md", err.Error())
+	}
 	// [[rewriter]]
 	ir := c.P.Func("cfg", "", "InitRewrite")
 	wr := wiringOfCall(c, ir, modPath+"/rewriter.New")
